@@ -29,7 +29,7 @@ def Attrs.set (a : Attrs) (k v : Nat) : Attrs := fun x => if x = k then some v e
 
 def fupd {β : Type} (f : Nat → β) (d : Nat) (v : β) : Nat → β := fun x => if x = d then v else f x
 
-inductive PC | idle | flushing | done
+inductive PC | idle | flushing | done | failed     -- `failed`: the write loop ended with an exception
   deriving DecidableEq, Repr
 
 structure RecSt where
@@ -62,6 +62,7 @@ inductive RecAct
   | shutdown
   | swap
   | flush
+  | crash        -- the writer cannot open the HDF5 file for this batch (h5py raises): nothing of the batch is written
   deriving DecidableEq, Repr
 
 /-- what one flush cycle does to the attributes of dataset `d` (first loop: datasets with data;
@@ -109,11 +110,24 @@ def recStep (s : RecSt) : RecAct → Option RecSt
         loc := fun _ => [], locKeys := [], newA := fun _ => none,
         pc := if s.quit then .done else .idle }
     else none
+  | .crash =>
+    if s.pc = .flushing then some { s with pc := .failed } else none
 
 /-- the attributes dataset `d` will have once everything queued has been written:
 file attributes, then the pending ones, then the writer's batch, then the hand-off queue (each a `dict.update`) -/
 def effAttrs (s : RecSt) (d : Nat) : Attrs :=
   (((s.fattrs d).upd ((s.pendA d).getD Attrs.empty)).upd ((s.newA d).getD Attrs.empty)).upd ((s.sattrs d).getD Attrs.empty)
+
+/-- `HDF5Recorder.close()` after the thread has ended (fix 342cad2): the write loop's exception is kept in
+`_exception` and re-raised as QMI_RuntimeException; `none` while the thread is still running (join blocks) -/
+inductive CloseOut | ok | runtimeError      -- returns normally / raises QMI_RuntimeException
+  deriving DecidableEq, Repr
+
+def closeResult (s : RecSt) : Option CloseOut :=
+  match s.pc with
+  | .done => some .ok
+  | .failed => some .runtimeError
+  | _ => none
 
 /-- run an action list; `none` as soon as an action is not enabled -/
 def recRun (s : RecSt) : List RecAct → Option RecSt
